@@ -65,6 +65,7 @@ PROPS = {
                         "reference image = SQLite's own recovery+checkpoint of a copy of (db, db-wal)"],
         "runs": [
             {"name": "histories", "test": "TestProp_C01", "kind": "rapid", "checks_quick": 600, "checks_thorough": 20000, "shards": 6},
+            {"name": "interleaved", "test": "TestProp_C01I", "kind": "rapid", "checks_quick": 400, "checks_thorough": 20000, "shards": 6},
         ],
     },
     "C02": {
